@@ -147,6 +147,24 @@ def _gen_ping_burst(rng, tier):
                "reactor": {"kind": "ws", "echo_close": False}, "truth": {}, "sched": {"seed": rng.randrange(1 << 30)}, "horizon": 100.0}
 
 
+def _gen_big_echo_with_pings(rng, tier):
+    """One WebSocket message far larger than any unit a worker may write in (the echo is a single write for the protocol) with pings right
+    behind it - their pongs are written by another task: the client sees the same frames, whole, from both workers."""
+    from ..wire import ws as _ws
+
+    for i in range(4 if tier == "quick" else 40):
+        size = rng.choice([70000, 200000, 600000])
+        payload = bytes(rng.getrandbits(8) for _ in range(64)) * (size // 64)
+        frames = _ws.message_frames(_ws.OP_BIN, payload) + b"".join(_ws.frame(_ws.OP_PING, b"p%d" % j) for j in range(rng.choice([1, 3, 8])))
+        paused = rng.random() < 0.5
+        client = [["feed", _ws.handshake(path=b"/t%d" % (8700000 + i))], ["settle"]] + ([["pause"]] if paused else []) + [["feed", frames], ["settle"]] + \
+                 ([["resume"], ["settle"]] if paused else []) + [["feed", _ws.close_frame(1000)], ["settle"]]
+        yield {"family": "c16:ws-big-echo-with-pings", "source": "c16", "backends": ["asyncio", "trio"],
+               "config": {"keep_alive_timeout": 5000, "websocket_max_message_size": 1 << 22}, "conn": {"write_buffer": 1 << 22} if paused else {},
+               "apps": {"default": [["recv"], ["send", {"type": "websocket.accept"}], ["ws_echo"]], "websocket": [["recv"], ["send", {"type": "websocket.accept"}], ["ws_echo"]]},
+               "client": client, "reactor": {"kind": "ws", "echo_close": False}, "truth": {}, "sched": {"seed": rng.randrange(1 << 30)}, "horizon": 100.0}
+
+
 def _gen_half_closed(rng, tier):
     """A client that has finished sending (half-close) but goes on reading, and an application that takes longer than keep_alive_timeout to
     answer: the response is owed on both workers (nothing is waiting to be written meanwhile: nobody is failing to take anything)."""
@@ -166,6 +184,7 @@ def _gen_half_closed(rng, tier):
 
 def gen(rng, tier):
     yield from _gen_half_closed(rng, tier)
+    yield from _gen_big_echo_with_pings(rng, tier)
     yield from _gen_peer_gone(rng, tier)
     yield from _gen_ping_burst(rng, tier)
     # the per-connection state seen by an application is part of the scope it is handed: it has to be the same on both workers,
